@@ -46,7 +46,7 @@ func (rq *request) observe(s *side) sexp.Node {
 		return sexp.L(o.sexp(true, false))
 	case "chain":
 		return sexp.L(o.sexp(true, false), sexp.T("lines", o.errorLines().List...), sexp.T("final", o.chainFinal(chainKeys(rq.chain))))
-	case "sdoc":
+	case "sdoc", "ssub":
 		return sexp.L(o.sexp(true, false), sexp.T("lines", o.errorLines().List...), o.tree(rq.sdoc.tkeys))
 	}
 	return sexp.L(o.sexp(true, false))
@@ -62,6 +62,8 @@ func (rq *request) sexp(a, b *side) sexp.Node {
 		items = append(items, sexp.T("query", sexp.Str(rq.query)), sexp.T("chain", chainSexp(rq.chain).List...))
 	case "sdoc":
 		items = append(items, sexp.T("query", sexp.Str(rq.query)), rq.sdoc.sexp())
+	case "ssub": // every source stream of the apifu schema delivers two events
+		items = append(items, sexp.T("query", sexp.Str(rq.query)), rq.sdoc.sexp(), sexp.T("events", sexp.Int(2)))
 	case "doc":
 		items = append(items, sexp.T("query", sexp.Str(rq.query)), sexp.T("vars", sexp.Str(varsJSON(rq.vars))), sexp.T("tags", strs(rq.tags)...))
 	}
@@ -179,6 +181,9 @@ func runApifuCase(F []string, route string) sexp.Node {
 	if subs {
 		for _, q := range apifuSubscriptionDocs {
 			reqs = append(reqs, &request{kind: "doc", query: q, tags: []string{"apifu", "subscription"}})
+		}
+		for _, sd := range subscriptionDocs() {
+			reqs = append(reqs, &request{kind: "ssub", query: sd.text, sdoc: sd})
 		}
 	}
 	rs := make([]sexp.Node, len(reqs))
